@@ -16,12 +16,16 @@ import (
 
 // ---------- generator ----------
 
-var paths = []string{"rules/a.yml", "rules/b.yml", "rules/c.yml", "rules/sub/d.yml", "rules/sub/e.yml", "alerts.yml"}
+var paths = []string{"rules/a.yml", "rules/b.yml", "rules/c.yml", "rules/sub/d.yml", "rules/sub/e.yml", "alerts.yml", "drafts/x.yml"}
+
+// excluded: pint is configured not to look at these paths at all (parser.exclude)
+func excluded(p string) bool { return strings.HasPrefix(p, "drafts/") }
 var basePaths = []string{"base/x.yml", "base/y.yml"}
 var names = []string{"Down", "HighErrors", "Latency", "job:up:sum", "job:errors:rate5m", "instance:load", "Flaky", "code:req:rate"}
 var exprs = []string{"up == 0", "sum(foo) by (job) > 1", "rate(errors_total[5m]) > 0.1", "sum(up) by (job)", "sum(rate(errors_total[5m])) by (job)", "avg(node_load1) by (instance)", "bar < 3", "sum(rate(requests_total[5m])) by (code)"}
 var fors = []string{"", "1m", "5m", "10m"}
-var ruleComments = []string{"# pint disable promql/series", "# pint disable promql/rate", "# pint snooze 2099-01-01 alerts/for", "# pint rule/owner team-a"}
+var ruleComments = []string{"# pint disable promql/series", "# pint disable promql/rate", "# pint snooze 2099-01-01 alerts/for", "# pint rule/owner team-a",
+	"# pint rule/set promql/series min-age 2h", "# pint rule/set promql/series min-age 6h", "# pint rule/set promql/series(up) ignore/label-value job"}
 var fileComments = []string{"# pint file/disable promql/series", "# pint file/disable alerts/template", "# pint file/owner team-b"}
 
 type C03Scenario struct {
@@ -39,6 +43,9 @@ type Evaluation struct {
 	Fork        Tree              `json:"fork"`
 	Head        Tree              `json:"head"`
 	Origin      map[string]string `json:"origin"` // HEAD path -> path of the same file at the fork point ("" = none)
+	// ViaExcluded: the file spent part of the branch's history under a path pint is configured
+	// not to look at; what its "base version" is then is not something the property settles
+	ViaExcluded map[string]bool `json:"via_excluded,omitempty"`
 }
 
 type gen struct {
@@ -235,6 +242,7 @@ func drawC03(rt *rapid.T) C03Scenario {
 	head := sc.Init.clone()
 	origin := map[string]string{}
 	deleted := map[string]string{}
+	viaExcluded := map[string]bool{}
 	for p := range head {
 		origin[p] = p
 	}
@@ -320,6 +328,15 @@ func drawC03(rt *rapid.T) C03Scenario {
 				origin[np] = origin[p]
 				delete(origin, p)
 				delete(deleted, np)
+				if viaExcluded[p] || excluded(p) || excluded(np) {
+					viaExcluded[np] = true
+				}
+				if excluded(np) && !excluded(p) {
+					// moved out of pint's sight: for pint the file is gone, and a file created
+					// later at the old path continues the old one (like delete + re-add)
+					deleted[p] = origin[np]
+				}
+				delete(viaExcluded, p)
 				cm.Renames = [][2]string{{p, np}}
 			default: // edit one or two files
 				if len(ks) == 0 {
@@ -352,7 +369,11 @@ func drawC03(rt *rapid.T) C03Scenario {
 			for k, v := range origin {
 				o[k] = v
 			}
-			sc.Evaluations = append(sc.Evaluations, Evaluation{AfterCommit: len(sc.Commits) - 1, Fork: fork.clone(), Head: head.clone(), Origin: o})
+			ve := map[string]bool{}
+			for k, v := range viaExcluded {
+				ve[k] = v
+			}
+			sc.Evaluations = append(sc.Evaluations, Evaluation{AfterCommit: len(sc.Commits) - 1, Fork: fork.clone(), Head: head.clone(), Origin: o, ViaExcluded: ve})
 		}
 	}
 	return sc
@@ -390,6 +411,9 @@ const (
 func classify(ev *Evaluation, path string, f *File, idx int) []string {
 	r := f.Rules[idx]
 	o := ev.Origin[path]
+	if ev.ViaExcluded[path] {
+		return []string{stAdded, stModified, stRenamed, "via-excluded-path"}
+	}
 	if o == "" {
 		return []string{stAdded}
 	}
@@ -468,6 +492,7 @@ const c03Config = `ci {
 }
 parser {
   relaxed = [".*"]
+  exclude = ["drafts/.*"]
 }
 checks {
   disabled = ["alerts/annotation", "alerts/comparison", "alerts/for", "alerts/template", "promql/aggregate", "promql/fragile", "promql/impossible", "promql/regexp", "promql/syntax", "rule/for", "rule/name", "rule/reject", "rule/link"]
@@ -510,6 +535,9 @@ rule {
 
 const c03ConfigStrict = `ci {
   baseBranch = "main"
+}
+parser {
+  exclude = ["drafts/.*"]
 }
 checks {
   disabled = ["alerts/annotation", "alerts/comparison", "alerts/for", "alerts/template", "promql/aggregate", "promql/fragile", "promql/impossible", "promql/regexp", "promql/syntax", "rule/for", "rule/name", "rule/reject", "rule/link"]
@@ -622,6 +650,10 @@ func runC03(t *testing.T, sc C03Scenario, record bool) *detsim.Outcome {
 		}
 		for _, p := range sortedKeys(ev.Head) {
 			f := ev.Head[p]
+			if excluded(p) {
+				out.Probes["file_in_excluded_path"]++
+				continue // nothing may be reported there; any marker is caught as marker-on-unknown-rule below
+			}
 			_, spans := f.Render()
 			for i, r := range f.Rules {
 				want := classify(ev, p, f, i)
